@@ -307,7 +307,135 @@ def engine_apimon(prop, tier, seed, spec):
     return finish(agg, spec)
 
 
-ENGINES = {"apimon": engine_apimon}
+def engine_transcript(prop, tier, seed, spec):
+    """C08: one call list (built by the model), executed by one binary per build configuration;
+    the transcripts must be byte-identical."""
+    agg = Agg(prop, tier, seed)
+    cfgs = spec["configs"][tier]
+    wdir = os.path.join(WORK, prop, "shards")
+    shutil.rmtree(wdir, ignore_errors=True)
+    os.makedirs(wdir, exist_ok=True)
+    bins = {}
+    for cfg in cfgs:
+        try:
+            bins[cfg] = build(cfg, "transcript")
+        except BuildError as e:
+            log(str(e))
+            agg.inconclusive.append("%s: build failed" % cfg)
+    ref_cfg = cfgs[0]
+    if ref_cfg not in bins or len(bins) < 2:
+        return finish(agg, spec)
+    parts = spec.get("parts", {}).get(tier, NCPU)
+    gjobs = []
+    for part in range(parts):
+        out = os.path.join(wdir, "calls-%d.jsonl" % part)
+        gjobs.append({"out": out, "log": out + ".log", "part": part,
+                      "args": [bins[ref_cfg], "-gen", "-seed", str(seed * 1000 + part), "-tier", tier, "-out", out]})
+    for j, st, rc in run_shards(gjobs, 1800):
+        if st != "ok":
+            agg.inconclusive.append("call-list generation part %d: %s rc=%s" % (j["part"], st, rc))
+    jobs = []
+    for cfg, binp in bins.items():
+        for part in range(parts):
+            calls = os.path.join(wdir, "calls-%d.jsonl" % part)
+            if not os.path.exists(calls):
+                continue
+            out = os.path.join(wdir, "tr-%s-%d.txt" % (cfg, part))
+            jobs.append({"cfg": cfg, "part": part, "out": out, "log": out + ".log", "args": [binp, "-exec", calls, "-out", out]})
+    status = {}
+    for j, st, rc in run_shards(jobs, spec.get("timeout", {}).get(tier, 3600)):
+        status[(j["cfg"], j["part"])] = (st, rc, j)
+    classes = {}
+    nlines = 0
+    for part in range(parts):
+        calls_p = os.path.join(wdir, "calls-%d.jsonl" % part)
+        if not os.path.exists(calls_p):
+            continue
+        st, rc, j = status.get((ref_cfg, part), ("missing", None, None))
+        if st != "ok":
+            if st == "timeout":
+                agg.inconclusive.append("%s part %d: watchdog" % (ref_cfg, part))
+            else:
+                agg.violations.append({"property": prop, "sub": "transcript", "config": ref_cfg, "sig": "crash", "what": "transcript process died rc=%s" % rc, "case": {"op": "none"}})
+            continue
+        ref_lines = open(j["out"]).read().splitlines()
+        calls = open(calls_p).read().splitlines()
+        for ln in calls:
+            agg.hashes.add(hashlib.sha1(ln.encode()).digest()[:8])
+        for i, ln in enumerate(calls):
+            try:
+                cl = json.loads(ln).get("class", "?")
+            except Exception:
+                cl = "?"
+            classes[cl] = classes.get(cl, 0) + 1
+        if len(agg.samples) < 6 and ref_lines:
+            k = (part * 37) % len(ref_lines)
+            c = json.loads(calls[k])
+            for fld in ("keys", "msgs", "sigs"):
+                if fld in c:
+                    c[fld] = "%d entries" % len(c[fld])
+            agg.samples.append({"call": c, "transcript_line": ref_lines[k][:200]})
+        c0 = agg.configs.setdefault(ref_cfg, {"evaluations": 0, "shards": 0})
+        c0["evaluations"] += len(ref_lines)
+        c0["shards"] += 1
+        nlines += len(ref_lines)
+        for cfg in bins:
+            if cfg == ref_cfg:
+                continue
+            st, rc, j2 = status.get((cfg, part), ("missing", None, None))
+            if st == "timeout":
+                agg.inconclusive.append("%s part %d: watchdog" % (cfg, part))
+                continue
+            if st != "ok":
+                agg.violations.append({"property": prop, "sub": "transcript", "config": cfg, "sig": "crash", "what": "transcript process died rc=%s: %s" % (rc, open(j2["log"]).read()[-400:] if j2 else ""), "case": {"op": "none"}})
+                continue
+            lines = open(j2["out"]).read().splitlines()
+            cc = agg.configs.setdefault(cfg, {"evaluations": 0, "shards": 0})
+            cc["evaluations"] += len(lines)
+            cc["shards"] += 1
+            nlines += len(lines)
+            ndiff = 0
+            if len(lines) != len(ref_lines):
+                agg.violations.append({"property": prop, "sub": "transcript", "config": cfg, "sig": "length", "what": "transcript of %s has %d lines, %s has %d" % (cfg, len(lines), ref_cfg, len(ref_lines)), "case": {"op": "none"}})
+            for i, (a, b) in enumerate(zip(ref_lines, lines)):
+                if a != b:
+                    ndiff += 1
+                    if ndiff <= 3:
+                        call = json.loads(calls[i])
+                        agg.violations.append({"property": prop, "sub": "transcript", "config": cfg, "sig": "diff/%s" % call.get("op"),
+                                               "what": "configurations %s and %s disagree on a %s call (class %s): %s vs %s" % (ref_cfg, cfg, call.get("op"), call.get("class"), a[:120], b[:120]),
+                                               "case": {"op": "transcript", "call": call, "ref_config": ref_cfg, "config": cfg, "ref_line": a, "line": b}})
+            agg.nviol += ndiff
+    agg.evaluations = nlines
+    agg.classes = classes
+    return finish(agg, spec, {"configs_compared": list(bins.keys()), "reference_config": ref_cfg})
+
+
+def replay_transcript(path, v, cfg, spec):
+    case = v.get("case", {})
+    call = case.get("call")
+    if call is None:
+        log("record has no call to replay")
+        return 2
+    wdir = os.path.join(WORK, "replay")
+    os.makedirs(wdir, exist_ok=True)
+    cf = os.path.join(wdir, "call.jsonl")
+    open(cf, "w").write(json.dumps(call) + "\n")
+    outs = {}
+    for c in (case.get("ref_config", "K0"), case.get("config", cfg)):
+        b = build(c, "transcript")
+        o = os.path.join(wdir, "tr-%s.txt" % c)
+        subprocess.run([b, "-exec", cf, "-out", o], check=False)
+        outs[c] = open(o).read()
+    vals = list(outs.values())
+    if len(set(vals)) > 1:
+        log("REPLAY-VIOLATION property=%s configurations disagree: %s" % (v.get("property"), json.dumps(outs)[:400]))
+        return 1
+    log("REPLAY-OK: configurations agree on the recorded call")
+    return 0
+
+
+ENGINES = {"apimon": engine_apimon, "transcript": engine_transcript}
 
 API_RULE_VERIFY = ("triples are built constructively with the big-integer model (W-honest, W-torsion 8x8, W-smallkey x W-Sbound, "
                    "W-noncanonR, single-bit perturbations, S+kL, W-garbage, signature lengths 0..70) and judged by the model predicate; "
@@ -326,6 +454,9 @@ SPECS = {
             "rule": "one evaluation = one VerifyBatch call judged entry-by-entry against observed single verification and the model; non-trivial = batches with n > 0; distinct = FNV-64 of (n, options, entropy, first 8 keys/signatures)"},
     "C07": {"engine": "apimon", "configs": {"quick": [("K0", 1)], "thorough": [("K0", 1), ("K2", 0.1)]}, "floor": 2000,
             "rule": "ordered (signing pair, verification pair) combinations incl. one-bit / length-only context changes, plus context-length and digest-length contract probes; distinct = FNV-64 of (seed, message, p, q)"},
+    "C08": {"engine": "transcript", "configs": {"quick": ["K0", "K1", "K2", "K3", "K4", "K6"], "thorough": ["K0", "K1", "K2", "K3", "K4", "K5", "K6"]}, "floor": 10000,
+            "rule": "API calls (key generation, 3 signing variants, verdicts in both modes on torsion/small-order/boundary/garbage triples, batches with seeded entropy, X25519 both paths, conversions) generated once by the model and executed by one binary per build configuration; evaluations = transcript lines over all configurations; distinct = distinct calls; every call is non-trivial (its full output is compared)",
+            "assumptions": ["configuration K0 serves as reference; agreement with the model is established by C01-C12", "GOARCH=386 binaries executed on this amd64 kernel stand for native 32-bit targets", "only executions the workload produced are judged"]},
     "C09": {"engine": "apimon", "configs": {"quick": [("K0", 1)], "thorough": [("K0", 1), ("K2", 0.1), ("K6", 0.1)]}, "floor": 1500, "rule": API_RULE_VERIFY},
     "C10": {"engine": "apimon", "configs": {"quick": [("K0", 1)], "thorough": [("K0", 1), ("K2", 0.25), ("K6", 0.1)]}, "floor": 15000,
             "rule": "32-byte strings (special y values, all y >= p, mixed-order points in every encoding, garbage, random) decoded by the library and the model; every string is non-trivial (about half decode); distinct = FNV-64 of the string"},
@@ -392,4 +523,4 @@ def replay_apimon(path, v, cfg, spec):
     return p.returncode
 
 
-REPLAYERS = {"apimon": replay_apimon}
+REPLAYERS = {"apimon": replay_apimon, "transcript": replay_transcript}
